@@ -18,6 +18,7 @@ import (
 	"github.com/libp2p/go-libp2p/core/crypto"
 
 	"berty.tech/weshnet/v2/internal/vharness"
+	"berty.tech/weshnet/v2/pkg/cryptoutil"
 	"berty.tech/weshnet/v2/pkg/protocoltypes"
 )
 
@@ -72,12 +73,30 @@ type c07world struct {
 	node *vNode
 	ids  struct{ meta, seed vIDs }
 	next uint64 // next contact id (1 is the account itself)
+	made int
 	issue string // discrepancy between ListContacts and GetContactFromGroupPK seen by the last observe
 }
 
 func (w *c07world) newContact() *c07contact {
 	_, pk, _ := crypto.GenerateEd25519Key(crand.Reader)
 	raw, _ := pk.Raw()
+	// now and then a key of the right length that is no point of the curve: every guard lets it through,
+	// no contact group can be derived for it; the lifecycle of such a contact is the same
+	w.made++
+	if w.made%6 == 0 {
+		for tries := 0; tries < 200; tries++ {
+			b := make([]byte, 32)
+			crand.Read(b)
+			cand, err := crypto.UnmarshalEd25519PublicKey(b)
+			if err != nil {
+				continue
+			}
+			if _, err := cryptoutil.EdwardsToMontgomeryPub(cand); err != nil {
+				pk, raw = cand, b
+				break
+			}
+		}
+	}
 	seed := make([]byte, 32)
 	crand.Read(seed)
 	w.next++
